@@ -33,6 +33,17 @@ CLASSES = ["mode/direct", "mode/tree", "mode/line", "mode/linetree", "boundary/n
            "merged_pair_collides_again", "three_way"]
 
 MODES = ["direct", "tree", "line", "linetree"]
+KEY_LINETREE = "linetree-pruning"       # linetree search prunes without the partner's radius and with signed dt
+KEY_MERGED = "tree-merged-radii"        # max_radius0/1 not updated when a merger grows a radius
+
+
+def linetree_open(ctx, cfg):
+    """Known finding: completeness of the linetree search is not asserted while it is open."""
+    if cfg["mode"] == "linetree" and ctx.finding_open(KEY_LINETREE):
+        ctx.excluded(KEY_LINETREE)
+        return True
+    return False
+
 LAYOUTS = [(1, 1, 1), (1, 1, 1), (2, 1, 1), (1, 2, 1), (2, 2, 1), (2, 2, 2), (3, 1, 2), (1, 3, 1)]
 
 
@@ -173,12 +184,16 @@ def system(draw, modes=MODES, nclusters=(1, 3), rmax_choices=(0.01, 0.04, 0.1, 0
     parts = []
     ncl = draw(st.integers(*nclusters))
     has_twins = False
+
+    def fresh(new):
+        have = {(q["x"], q["y"], q["z"]) for q in parts}
+        return [q for q in new if (q["x"], q["y"], q["z"]) not in have]
     for c in range(ncl):
         if p_twins and draw(st.integers(1, p_twins)) == 1:
             has_twins = True
-            parts += draw(twins(cfg, rmax, abs(dt), t0 + dt, periodic, 1 + 16 * c))
+            parts += fresh(draw(twins(cfg, rmax, abs(dt), t0 + dt, periodic, 1 + 16 * c)))
         else:
-            parts += draw(cluster(cfg, rmax, abs(dt), t0 + dt, periodic, 1 + 16 * c))
+            parts += fresh(draw(cluster(cfg, rmax, abs(dt), t0 + dt, periodic, 1 + 16 * c)))
     extras = []
     for e in range(extra):
         ex = draw(cluster(cfg, rmax, abs(dt), t0 + dt, periodic, 1 + 16 * (ncl + e)))
@@ -239,15 +254,20 @@ def make_dust(case):
 
 
 def valid_points(plist, cfg, existing=()):
-    """Inputs this module does not generate: two particles at the same point (rejected by the tree with a documented
-    error; a tie of the overlap predicate otherwise), and particles within rounding of a root-box face (C15 deals
-    with those: the tree can assign them to a cell whose rounded extent does not contain them)."""
-    seen = set(existing)
+    """Inputs this module does not generate: two particles at (or within 1e-10 root boxes of) the same point (exact
+    coincidence is rejected by the tree with a documented error and is a tie of the overlap predicate otherwise;
+    pairs a few ulps apart cannot be separated by the tree's rounded cells), and particles within rounding of a
+    root-box face (C15 deals with those: the tree can assign them to a cell whose rounded extent does not contain them)."""
+    pts = [tuple(e) for e in existing] + [(q["x"], q["y"], q["z"]) for q in plist]
+    pts.sort()
+    tol = 1e-10 * cfg["L0"]
+    for i in range(len(pts)):
+        for j in range(i + 1, len(pts)):
+            if pts[j][0] - pts[i][0] >= tol:
+                break
+            if max(abs(a - b) for a, b in zip(pts[i], pts[j])) < tol:
+                return False
     for q in plist:
-        k = (q["x"], q["y"], q["z"])
-        if k in seen:
-            return False
-        seen.add(k)
         for i, ax in enumerate("xyz"):
             u = (q[ax] + 0.5 * cfg["L"][i]) / cfg["L0"]
             if abs(u - round(u)) < 1e-9:
@@ -425,6 +445,8 @@ def run_detect(case, ctx):
         G.add((min(p1, p2), max(p1, p2)))
     got = rep
     missing = sorted(must - G)
+    if missing and linetree_open(ctx, cfg):
+        missing = []
     if missing:
         i, j = missing[0]
         raise Violation("%s search did not hand over %d clearly colliding pair(s), e.g. hashes (%d,%d) radii (%g,%g)"
@@ -546,6 +568,8 @@ def run_remove_fixup(case, ctx):
     for pr in must:
         hi, hj = int(s0["hash"][pr[0]]), int(s0["hash"][pr[1]])
         if hi not in removed and hj not in removed and pr not in handed:
+            if linetree_open(ctx, cfg):
+                break
             raise Violation("clearly colliding pair (%d,%d) was never handed to the resolver although both survive"
                             % (hi, hj), keep_sorted=case["keep_sorted"], mode=cfg["mode"])
     if removed:
@@ -779,6 +803,11 @@ def run_merge_hist(case, ctx):
             hi, hj = int(s0["hash"][pr[0]]), int(s0["hash"][pr[1]])
             if hi in o1 and hj in o1 and hi not in stamped and hj not in stamped:
                 both = hi in prev_merged and hj in prev_merged
+                if linetree_open(ctx, cfg):
+                    break
+                if tree and (hi in prev_merged or hj in prev_merged) and ctx.finding_open(KEY_MERGED):
+                    ctx.excluded(KEY_MERGED)
+                    continue
                 raise Violation("%s search left a clearly colliding pair unresolved: hashes (%d,%d) radii (%g,%g)%s"
                                 % (mode, hi, hj, s0["r"][pr[0]], s0["r"][pr[1]],
                                    " - both radii grew in earlier mergers" if both else ""),
@@ -808,7 +837,7 @@ hist_ops = st.lists(st.one_of(st.just(("step",)), st.just(("step",)), st.just(("
                               st.tuples(st.just("drift"), st.sampled_from([0.3, 1.0, 3.0])),
                               st.just(("add",))), min_size=1, max_size=8).map(lambda l: [("step",)] + l + [("step",)])
 
-merge_case = system(modes=["direct", "tree", "tree", "line", "linetree"], rmax_choices=(0.01, 0.04, 0.1), extra=2,
+merge_case = system(modes=["direct", "tree", "tree", "tree", "line", "linetree"], rmax_choices=(0.01, 0.04, 0.1), extra=2,
                     nclusters=(1, 3), p_twins=2).flatmap(
     lambda c: st.fixed_dictionaries({"ops": hist_ops, "wrap": st.booleans()}).map(lambda d: dict(c, **d)))
 
@@ -1004,10 +1033,10 @@ bounce_case = system(dust_max=150).flatmap(
 
 def subs(tier):
     return [
-        Sub("detect", skipping(run_detect), strategy=system(), quick=2400, thorough=48000, shards_quick=8, shards_thorough=16),
+        Sub("detect", skipping(run_detect), strategy=system(), quick=2000, thorough=48000, shards_quick=8, shards_thorough=16),
         Sub("remove_fixup", skipping(run_remove_fixup), strategy=fixup_case, quick=2000, thorough=40000, shards_quick=8,
             shards_thorough=16),
-        Sub("merge_hist", skipping(run_merge_hist), strategy=merge_case, quick=1600, thorough=32000, shards_quick=8,
+        Sub("merge_hist", skipping(run_merge_hist), strategy=merge_case, quick=1400, thorough=32000, shards_quick=8,
             shards_thorough=16),
         Sub("bounce", skipping(run_bounce), strategy=bounce_case, quick=1200, thorough=24000, shards_quick=8, shards_thorough=16),
     ]
